@@ -26,6 +26,14 @@ def run(ctx):
     ctx.cov["front_end_identity_cases"] = rep["cases"]
     for m in rep["mismatches"]:
         ctx.violation("C01/fronts:" + m.get("what", "?"), m.get("what"), {"mismatch": m})
+    p = vlib.run_bin("amv", ["c02-types", ctx.seed, 40 if thorough else 12])
+    why = vlib.died(p)
+    if why:
+        ctx.violation("C01/types-crash", f"64 types under one id: the process died ({why})", {"stderr": p.stderr[-1500:]})
+    else:
+        rep = worlds.parse_report(p)
+        for m in rep["mismatches"]:
+            ctx.violation(f"C01/types:{m.get('front')}", "presence / handle of a key depends on entries of other types with the same id", {"mismatch": m})
     ctx.cov["rule"] = ("cases = stress runs (seed, feature set), each 150-500 rounds of 2-4 threads x 1-3 calls; distinct by measured content; "
                        "all non-trivial (every run has forced simultaneous misses and lost insertion races, counted in race_runs)")
     ctx.assumptions += ["real schedules are those the OS produced plus gate-forced simultaneous misses; all schedules are covered only in the model (3 threads)",
